@@ -34,7 +34,7 @@ fn cmd_gen(a: &Args) -> i32 {
         let mut vals: Vec<J> = vec![];
         for _ in 0..(2 + rng.below(4)) {
             let v = value_for(&mut rng, &w, &env, 3);
-            if !vals.contains(&v) {
+            if json_depth(&v) <= 60 && !vals.contains(&v) {
                 vals.push(v);
             }
         }
@@ -46,7 +46,7 @@ fn cmd_gen(a: &Args) -> i32 {
                 readers.push(json!({"R": r, "hist": hist}));
             }
         }
-        if readers.is_empty() {
+        if readers.is_empty() || vals.is_empty() {
             continue;
         }
         writeln!(out, "{}", json!({"W": w, "vals": vals, "readers": readers})).unwrap();
